@@ -218,7 +218,7 @@ func (c *Ctx) ruleT1Rec() {
 		// scanner machine?
 		allScanner := merr == nil
 		for _, f := range repo {
-			if f.Pkg == nil || f.Pkg.Pkg != c.P.Pkg("scanner").Types || !m.FuncsSeen[f.Name()] {
+			if m == nil || f.Pkg == nil || f.Pkg.Pkg != c.P.Pkg("scanner").Types || !m.FuncsSeen[f.Name()] {
 				allScanner = false
 			}
 		}
